@@ -228,7 +228,8 @@ def base_queries(backend, tier):
     ]
     qs = [q.replace("PRIM", v["prim"]).replace("SEC", v["sec"]) for q in qs]
     with_md = []
-    for q in qs[:: (5 if tier == "quick" else 2)]:
+    multi_step = [x.replace("PRIM", v["prim"]).replace("SEC", v["sec"]) for x, _ in FUSION_PAIRS] + [x for x in qs if x.startswith(("Select(Select(", "Select(Where(", "Select(SelectMany("))]
+    for q in list(dict.fromkeys(multi_step + qs[:: (5 if tier == "quick" else 2)])):
         for md in (MD_INJECT, dict(MD_MTI, type_string=v["prim_cls"])):
             with_md.append(q.replace("EventDataset('ds')", f"MetaData(EventDataset('ds'), {md!r})", 1))
     return qs, with_md
